@@ -678,6 +678,22 @@ def _unescape(s):
     return re.sub(r'\\u\{([0-9a-fA-F]+)\}', lambda m: chr(int(m.group(1), 16)), s)
 
 
+def _library_exception_label(e):
+    """`uncaught:<Type>` if the exception was raised inside the library under test (or a C library it called), None if it
+    was raised by harness / engine code -- an exception escaping a library call the harness did not expect to fail is a
+    property violation candidate (replayed like any other), not a harness crash"""
+    import os
+    import traceback
+    tb = traceback.extract_tb(e.__traceback__)
+    if not tb:
+        return None
+    here = os.path.dirname(os.path.dirname(os.path.abspath(__file__)))
+    inner = tb[-1].filename
+    if inner.startswith(here + os.sep) and (os.sep + 'models' + os.sep) not in inner:
+        return None
+    return 'uncaught:' + type(e).__name__
+
+
 def _jsonable(x):
     import json
     try:
@@ -733,6 +749,12 @@ def explore(fn, args=(), timeout_ms=20000, max_paths=None, time_budget=None, max
                                   'symbolic_vars': len(c.vars)})
         except Abort:
             c.aborted += 1
+        except Exception as e:      # noqa
+            lab = _library_exception_label(e)
+            if lab is None:
+                raise               # raised by the harness / engine itself: a harness error, not library behaviour
+            c.fail(lab, detail=f"{type(e).__name__}: {e}"[:200])
+            c.paths += 1
         except Unsupported as e:
             c.inconclusive.append((f"unsupported: {e}", list(c.choices)))
             key = str(e)[:60]
@@ -778,6 +800,12 @@ def replay(fn, args, choices, values):
         fn(*args)
     except Abort:
         status = 'abort'
+    except Exception as e:      # noqa
+        lab = _library_exception_label(e)
+        if lab is None:
+            CTX = None
+            raise
+        c.conc_failures.append((lab, f"{type(e).__name__}: {e}"[:200]))
     finally:
         CTX = None
     return status, c.conc_failures
